@@ -1,16 +1,17 @@
-\* what if release() forgot one field?  For every such variant of the model: every distinct end state of
+\* (quick: small space)  what if release() forgot one field - or the two it forgot before the repair?  For every such variant of the model: every distinct end state of
 \* two consecutive sessions (second one possibly with a field stripped from its credentials) that breaks
 \* the property, with a history that leads there.  Executed on the real code, none may reproduce.
 INIT Init
 NEXT Next
 CONSTANTS
   Sessions = {1, 2}
-  SessionSpace <- SpaceResidue
+  SessionSpace <- SpaceResidueQ
   MaxFaults = 1
   FaultKinds = {"replace"}
   ChunkPts = {}
-  ResetChoices <- OneMissing
+  ResetChoices <- ForgetSome
   TamperTags <- StripOnly
+  CacheChoices = {"none"}
   Concurrent = FALSE
   RecordHist = TRUE
 INVARIANT EmitUnsound
